@@ -227,25 +227,41 @@ structure EntOut where
   bump : Bool := false
 deriving Repr, Inhabited
 
+/-- how one component of a visible entity travels to one client in this run -/
+inductive Path where
+  | insertion | mutation | nothing
+deriving Repr, DecidableEq
+
+/-- the per-component decision of `collect_changes`: `known` is the entity's tick for this
+client, `fresh` = the marker was added in this tick window or the entity just became visible -/
+def compPath (s : Server) (known : Option Nat) (fresh : Bool) (r : Rate) (c : Comp) : Path :=
+  match known with
+  | some t =>
+    if !fresh && !decide (c.added > s.lastRun) then
+      (if decide (c.changed > t) && r.sendMutations s.tick then .mutation else .nothing)
+    else .insertion
+  | none => .insertion
+
+/-- the replicated components the entity carries, in the order of the replicated archetype
+(= rule registration order) -/
+def present (s : Server) (ent : SEnt) : List (Nat × Rate × Comp) :=
+  s.rates.filterMap fun (k, r) => (aget ent.comps k).map fun c => (k, r, c)
+
+def visState (s : Server) (cl : Cli) (e : Nat) : Vis.State :=
+  if s.white then Vis.stateW (cell cl e) else Vis.stateB (cell cl e)
+
 def collectEntity (s : Server) (thisRun : Nat) (cl : Cli) (e : Nat) (ent : SEnt) (markerAdded : Nat) : EntOut :=
-  let st := if s.white then Vis.stateW (cell cl e) else Vis.stateB (cell cl e)
-  if st = Vis.State.hidden then {} else
-  let isNewMarker := markerAdded > s.lastRun
-  let known := aget cl.mutTick e
-  -- components in the order of the replicated archetype (= rule registration order)
-  let present := s.rates.filterMap fun (k, r) => (aget ent.comps k).map fun c => (k, r, c)
-  let classify := present.map fun (k, r, c) =>
-    match known with
-    | some t =>
-      if !isNewMarker && st ≠ Vis.State.gained && !(c.added > s.lastRun) then
-        (k, c.val, false, decide (c.changed > t) && r.sendMutations s.tick)   -- mutation path
-      else (k, c.val, true, false)                                           -- insertion path
-    | none => (k, c.val, true, false)
-  let insertions := (classify.filter fun x => x.2.2.1).map fun x => (x.1, x.2.1)
-  let mutations := (classify.filter fun x => !x.2.2.1 && x.2.2.2).map fun x => (x.1, x.2.1)
-  let newEntity := isNewMarker || st = Vis.State.gained || known.isNone
-  let hasRemovals := (aget s.removalBuf e).isSome
   let _ := thisRun
+  let st := visState s cl e
+  if st = Vis.State.hidden then {} else
+  let isNewMarker := decide (markerAdded > s.lastRun)
+  let known := aget cl.mutTick e
+  let fresh := isNewMarker || decide (st = Vis.State.gained)
+  let pres := present s ent
+  let insertions := pres.filterMap fun (k, r, c) => if compPath s known fresh r c = .insertion then some (k, c.val) else none
+  let mutations := pres.filterMap fun (k, r, c) => if compPath s known fresh r c = .mutation then some (k, c.val) else none
+  let newEntity := fresh || known.isNone
+  let hasRemovals := (aget s.removalBuf e).isSome
   if newEntity || !insertions.isEmpty || hasRemovals then
     if insertions.isEmpty && mutations.isEmpty && !newEntity then { bump := true }
     else { toUpdate := some { ent := e, comps := insertions ++ mutations }, bump := true }
@@ -257,45 +273,41 @@ structure ClientOut where
   mutEnts : List MsgEnt
 deriving Repr, Inhabited
 
+/-- `collect_despawns` for one client: the despawn buffer (despawn if visible, forget the
+entity), then the entities that lost visibility (`drain_lost`). -/
+def despawnPhase (s : Server) (cl : Cli) : Cli × List Nat :=
+  let r := s.despawnBuf.foldl (fun (acc : Cli × List Nat) e =>
+    let c0 := cell acc.1 e
+    let ds := if Vis.isVisible s.white c0 then acc.2 ++ [e] else acc.2
+    let cl1 := setCell acc.1 e (Vis.removeDespawned s.white c0)
+    ({ cl1 with mutTick := adel cl1.mutTick e }, ds)) (cl, [])
+  let lost := (r.1.vis.filter fun (_, c0) => Vis.lost s.white c0).map (·.1)
+  let cl2 := { r.1 with mutTick := lost.foldl adel r.1.mutTick,
+                        vis := r.1.vis.map fun (e, c0) => (e, Vis.drainLost s.white c0) }
+  (cl2, r.2 ++ lost)
+
+/-- the replicated entities with what `collect_changes` decides for each (the decision for an
+entity reads only that entity's tick and visibility cell, so it does not depend on the order) -/
+def entityOuts (s : Server) (thisRun : Nat) (cl : Cli) : List (Nat × EntOut) :=
+  s.world.filterMap fun (e, ent) =>
+    match ent.marker with
+    | none => none
+    | some madded => some (e, collectEntity s thisRun cl e ent madded)
+
 /-- `collect_mappings` … `collect_changes` for one authorized client; returns the client's new
 state (before `Mutations::send` registers its messages and `visibility.update()`). -/
-def runClient (s : Server) (thisRun : Nat) (cl : Cli) : Cli × ClientOut := Id.run do
-  let mut cl := cl
-  -- collect_mappings
+def runClient (s : Server) (thisRun : Nat) (cl : Cli) : Cli × ClientOut :=
   let mappings := cl.mappings
-  cl := { cl with mappings := [] }
-  -- collect_despawns: despawn buffer, then entities that lost visibility
-  let mut despawns : List Nat := []
-  for e in s.despawnBuf do
-    let c0 := cell cl e
-    if Vis.isVisible s.white c0 then despawns := despawns ++ [e]
-    cl := setCell cl e (Vis.removeDespawned s.white c0)
-    cl := { cl with mutTick := adel cl.mutTick e }
-  for (e, c0) in cl.vis do
-    if Vis.lost s.white c0 then
-      despawns := despawns ++ [e]
-      cl := { cl with mutTick := adel cl.mutTick e }
-  cl := { cl with vis := cl.vis.map fun (e, c0) => (e, Vis.drainLost s.white c0) }
-  -- collect_removals
-  let removals := s.removalBuf.filter fun (e, _) => Vis.isVisible s.white (cell cl e)
-  -- collect_changes
-  let mut changes : List MsgEnt := []
-  let mut mutEnts : List MsgEnt := []
-  for (e, ent) in s.world do
-    match ent.marker with
-    | none => pure ()
-    | some madded =>
-      let o := collectEntity s thisRun cl e ent madded
-      if o.bump then cl := { cl with mutTick := aset cl.mutTick e thisRun }
-      match o.toUpdate with
-      | some m => changes := changes ++ [m]
-      | none => pure ()
-      match o.toMutate with
-      | some m => mutEnts := mutEnts ++ [m]
-      | none => pure ()
+  let (cl1, despawns) := despawnPhase s { cl with mappings := [] }
+  let removals := s.removalBuf.filter fun (e, _) => Vis.isVisible s.white (cell cl1 e)
+  let outs := entityOuts s thisRun cl1
+  let changes := outs.filterMap fun (_, o) => o.toUpdate
+  let mutEnts := outs.filterMap fun (_, o) => o.toMutate
+  let bumped := (outs.filter fun (_, o) => o.bump).map (·.1)
+  let cl2 := { cl1 with mutTick := bumped.foldl (fun mt e => aset mt e thisRun) cl1.mutTick }
   let u : Update := { tick := s.tick, mappings := mappings, despawns := despawns, removals := removals, changes := changes }
-  if u.isEmpty then return (cl, { update := none, mutEnts := mutEnts })
-  else return ({ cl with updateTick := s.tick }, { update := some u, mutEnts := mutEnts })
+  if u.isEmpty then (cl2, { update := none, mutEnts := mutEnts })
+  else ({ cl2 with updateTick := s.tick }, { update := some u, mutEnts := mutEnts })
 
 /-- `visibility.update()` for every entry of the client -/
 def Cli.visUpdate (white : Bool) (cl : Cli) : Cli :=
@@ -331,6 +343,17 @@ end Replicon.Srv
 
 namespace Replicon.Srv
 
+/-- `send_replication` for every client that has replication state (i.e. is authorized) -/
+def Server.runAll (s : Server) : Server × List (Nat × ClientOut) :=
+  let thisRun := s.now + 1
+  let results := s.clients.map fun (x : Nat × Cli) =>
+    if x.2.authorized then
+      let r := runClient s thisRun x.2
+      (x.1, r.1, some r.2)
+    else (x.1, x.2, none)
+  ({ s with clients := results.map fun x => (x.1, x.2.1) },
+   results.filterMap fun x => x.2.2.map fun o => (x.1, o))
+
 /-- First half of a server frame (`App::update`): `receive_acks`, the tick (if any),
 `buffer_removals`, and — when `ServerTick` changed — `send_replication` up to the point where
 `Mutations::send` splits the collected mutations.  Returns what every authorized client is sent. -/
@@ -359,14 +382,8 @@ def Server.frameBegin (s : Server) (ticked : Bool) (ms : Nat := 10) : Server × 
     let s := s.bufferRemovals
     if !s.tickChanged then (s, false, [])
     else
-      let thisRun := s.now + 1
-      let results := s.clients.map fun (c, cl) =>
-        if cl.authorized then
-          let (cl', o) := runClient s thisRun cl
-          (c, cl', some o)
-        else (c, cl, none)
-      let s' := { s with clients := results.map fun (c, cl, _) => (c, cl) }
-      (s', true, results.filterMap fun (c, _, o) => o.map fun o => (c, o))
+      let r := s.runAll
+      (r.1, true, r.2)
 
 /-- Second half: `Mutations::send` registered `parts c` (entities per message) for client `c`;
 `visibility.update()`; the buffers are cleared; the change-detection clock advances. -/
